@@ -20,7 +20,7 @@ namespace GojaModel.C05.Tie
 open GojaModel
 namespace G
 export GojaModel.Generated.C05_Shapes (facts_canonicalisers facts_conversions facts_mul facts_strnum facts_identity
-  facts_includes facts_mathsign whitespaceChars maxIntShift)
+  facts_includes facts_mathsign facts_parseint whitespaceChars maxIntShift)
 end G
 
 def auditedSites : List (String × String × String) := [
@@ -145,6 +145,16 @@ theorem includes_tie : G.facts_includes = [
 /-- builtin_math.go `Math.sign` returns Numbers only (795f82e) -/
 theorem mathsign_tie : G.facts_mathsign = [
   ("returns:Runtime.math_sign", ["floatToValue(num)", "intToValue(1)", "intToValue(-1)"])
+] := by rfl
+
+/-- builtin_global.go `parseInt`: the overflow detection of the accumulation loop — `n >= cutoff` (not `>`),
+`n1 < n || n1 > maxVal`, `cutoff = MaxInt64/base + 1`, `maxVal = MaxInt64`, the wrapping updates — exactly what
+`ParseInt.loop` transcribes and `parseInt_loop_no_wrap` is proved for; -0 and the hand-over to `parseLargeInt` -/
+theorem parseint_tie : G.facts_parseint = [
+  ("conds:parseInt", ["len(s) < 1", "len(s) < 1", "s[0] == '0' && len(s) > 1 && (s[1] == 'x' || s[1] == 'X')", "base == 0 || base == 16", "len(s) < 3", "n >= cutoff", "v >= base", "n1 < n || n1 > maxVal", "i == 0", "sign", "n == 0"]),
+  ("assigns:parseInt", ["cutoff = math.MaxInt64/10 + 1", "cutoff = math.MaxInt64/16 + 1", "cutoff = math.MaxInt64/int64(base) + 1", "maxVal = math.MaxInt64", "n *= int64(base)", "n1 := n + int64(v)", "n = n1", "n = -n"]),
+  ("returns:parseInt", ["parseLargeInt(s, base, sign)", "parseLargeInt(s, base, sign)", "_negativeZero, nil", "intToValue(n), nil", "_NaN, err"]),
+  ("returns:parseLargeInt", ["_NaN, strconv.ErrSyntax", "valueFloat(n), nil"])
 ] := by rfl
 
 end GojaModel.C05.Tie
